@@ -5,8 +5,11 @@
 (*          time initialisation, and the id of the goroutine that performs the *)
 (*          executions (driver)                                                *)
 (*   Exec   one finished execution: how it ended (kind), and the projected     *)
-(*          goroutine profile taken after a short settling wait (snap)         *)
+(*          goroutine profile taken after a short settling wait                *)
 (*   Final  profile taken after the process has been still for a while         *)
+(* Profiles are logged as differences to the previous one of the same process  *)
+(* (add: new or changed goroutines, del: ids that are gone); `raw` is the      *)
+(* current profile.                                                            *)
 (* Every goroutine of every profile is classified here (by the function that   *)
 (* created it) and every table is judged with Orphans of RunLifecycle - the    *)
 (* operator of the invariant NothingLeft.  A goroutine is reported only if it  *)
@@ -23,6 +26,7 @@
 EXTENDS RunLifecycleJudge, Json, TLC
 
 VARIABLES i,       \* next event
+          raw,     \* the projected goroutine profile after the last event
           base,    \* ids of the goroutines of the Base event
           driver,
           prev,    \* ids present in the previous table
@@ -30,7 +34,7 @@ VARIABLES i,       \* next event
           pend,    \* generated executions since the last Final: [idx, ids (new program goroutines), expect, key]
           done,    \* ids already reported
           bad, guard, stats
-tvars == <<i, base, driver, prev, susp, pend, done, bad, guard, stats>>
+tvars == <<i, raw, base, driver, prev, susp, pend, done, bad, guard, stats>>
 
 Log == ndJsonDeserialize("trace.ndjson")
 N   == Len(Log)
@@ -50,8 +54,10 @@ ClassOf(g, b, d) ==
   ELSE IF g.ego THEN "interp"
   ELSE "lib"     \* started by a Go library on behalf of an object the program opened (database/sql, net/http): not judged
 
-Table(snap, b, d) == {[id |-> g.id, cls |-> ClassOf(g, b, d), host |-> g.host, frames |-> g.frames, kind |-> KindOf(g)]
-                      : g \in Range(snap)}
+Table(R, b, d) == {[id |-> g.id, cls |-> ClassOf(g, b, d), host |-> g.host, frames |-> g.frames, kind |-> KindOf(g)]
+                   : g \in R}
+Patch(R, e) == LET gone == Range(e.del) \cup {g.id : g \in Range(e.add)}
+               IN {g \in R : g.id \notin gone} \cup Range(e.add)
 Ids(V) == {g.id : g \in V}
 
 HostCls(V, w) == IF \E h \in V : h.id = w.host THEN (CHOOSE h \in V : h.id = w.host).cls ELSE "gone"
@@ -63,23 +69,27 @@ Key(e, V, g) == e.path \o "/exit=" \o e.kind \o "/" \o What(V, g)
 
 Expect(e) == {[f |-> x.f, w |-> x.w, n |-> x.n] : x \in Range(e.expect)}
 
-TInit == /\ i = 1 /\ base = {} /\ driver = 0 /\ prev = {} /\ susp = {} /\ pend = {} /\ done = {}
+TInit == /\ i = 1 /\ raw = {} /\ base = {} /\ driver = 0 /\ prev = {} /\ susp = {} /\ pend = {} /\ done = {}
          /\ bad = {} /\ guard = {}
          /\ stats = [execs |-> 0, tables |-> 0, goroutines |-> 0, helpers |-> 0, parked |-> 0, lib |-> 0, finals |-> 0]
 
 TBase == /\ Ev.ev = "Base"
-         /\ LET V == Table(Ev.snap, Ids(Range(Ev.snap)), Ev.driver)
-            IN /\ base' = Ids(V) /\ driver' = Ev.driver /\ prev' = Ids(V)
+         /\ LET R == Range(Ev.add)
+                V == Table(R, {g.id : g \in R}, Ev.driver)
+            IN /\ raw' = R
+               /\ base' = Ids(V) /\ driver' = Ev.driver /\ prev' = Ids(V)
                /\ susp' = {[id |-> g.id, idx |-> i, key |-> "init/" \o What(V, g)] : g \in Orphans(V)}
                /\ pend' = {} /\ done' = {}
                /\ stats' = [stats EXCEPT !.tables = @ + 1, !.goroutines = @ + Cardinality(V)]
          /\ UNCHANGED <<bad, guard>>
 
 TExec == /\ Ev.ev = "Exec"
-         /\ LET V   == Table(Ev.snap, base, driver)
+         /\ LET R   == Patch(raw, Ev)
+                V   == Table(R, base, driver)
                 O   == {g \in Orphans(V) : g.id \notin done}
                 new == {g \in Parked(V) : g.id \notin prev}
-            IN /\ susp' = {s \in susp : s.id \in Ids(O)}
+            IN /\ raw' = R
+               /\ susp' = {s \in susp : s.id \in Ids(O)}
                           \cup {[id |-> g.id, idx |-> i, key |-> Key(Ev, V, g)] : g \in {o \in O : o.id \notin Ids(susp)}}
                /\ pend' = IF Ev.hasexp
                           THEN pend \cup {[idx |-> i, ids |-> Ids(new), expect |-> Expect(Ev), key |-> Ev.key]}
@@ -92,11 +102,13 @@ TExec == /\ Ev.ev = "Exec"
          /\ UNCHANGED <<base, driver, done, bad, guard>>
 
 TFinal == /\ Ev.ev = "Final"
-          /\ LET V    == Table(Ev.snap, base, driver)
+          /\ LET R    == Patch(raw, Ev)
+                 V    == Table(R, base, driver)
                  O    == {g \in Orphans(V) : g.id \notin done}
                  late == {g \in O : g.id \notin Ids(susp)}
                  hit  == {s \in susp : s.id \in Ids(O)}
-             IN /\ bad' = bad \cup {[idx |-> s.idx, key |-> s.key] : s \in hit}
+             IN /\ raw' = R
+                /\ bad' = bad \cup {[idx |-> s.idx, key |-> s.key] : s \in hit}
                                \cup {[idx |-> i, key |-> "late/" \o What(V, g)] : g \in late}
                 /\ done' = done \cup Ids(O)
                 /\ guard' = guard \cup {[idx |-> p.idx, key |-> p.key] :
